@@ -283,6 +283,18 @@ def confirm_in_fresh_process(path):
     return p.returncode == 1 and "REPRODUCED" in p.stdout, p.stdout + p.stderr
 
 
+def cold_reference(sim_name, job):
+    """The same reference computation in a cold interpreter (no fork from a
+    pristine image): shows fork-from-pristine == fresh process."""
+    env = dict(os.environ)
+    env["PYTHONHASHSEED"] = "0"
+    p = subprocess.run([sys.executable, os.path.join(VERIF, "bin", "labsim"), "exec-ref", sim_name],
+                       input=json.dumps(job), capture_output=True, text=True, env=env, timeout=600)
+    if p.returncode != 0:
+        raise HarnessError("exec-ref failed: " + (p.stdout + p.stderr)[-2000:])
+    return json.loads(p.stdout.strip().splitlines()[-1])
+
+
 # ------------------------------------------------------------------ known findings
 
 def load_findings():
